@@ -1136,18 +1136,20 @@ OPTION_GRID = [{}, {'keep_implicit': True}, {'ignore_carbon_radicals': True}, {'
                {'keep_implicit': True, 'ignore_carbon_radicals': True, 'ignore_aromatic_radicals': False, 'ignore_bad_isotopes': True}]
 OPTION_MOLS = ['[CH3]', 'C[CH2]', 'C[O]', '[CH2]', '[OH3]', 'C[NH]', '[CH3]C', 'c1cc[c]cc1', '[n]1cccc1', 'c1cc[n]c1', '[3CH4]', '[3C]C',
                '[13CH3]', 'N[C@H](C)O', 'F/C=C/F', 'C[N+](C)(C)C', '[NH4+]', 'CC(=O)[O-]', '[CH3:7]C', 'C1CC1', 'CS(C)C', '[Cl]', 'C=[CH3]',
-               '[cH2]1ccccc1', 'c1ccccc1[CH2]', 'Cl[C](Cl)Cl', 'CC(C)(C)O[O]']
+               '[cH2]1ccccc1', 'c1ccccc1[CH2]', 'Cl[C](Cl)Cl', 'CC(C)(C)O[O]',
+               'C[C@H](N)O', 'C[C@@H](N)O', '[C@H](F)(Cl)Br', 'F/C=C\\F', 'C/C=C/C=C\\C', 'N[C@@]1(C)CCO1', 'C[C@H](O)/C=C/[C@@H](N)C',
+               'F/C=C/1CCOC1', 'CC(C)=C=C(C)F', 'O[C@H]1CC[C@@H](N)CC1']
 ROLE_TEMPLATES = ['{m}>>', '>{m}>', '>>{m}', '{m}>>C', 'C>{m}>C', 'C>>{m}']
 
 
 def mol_full_view(m):
     """everything the reader decided about one built molecule, atoms in construction order (numbers left out)"""
     pos = {n: k for k, n in enumerate(m._atoms)}
-    atoms = [(a.atomic_number, a.isotope, a.charge, a.implicit_hydrogens, bool(a.is_radical)) for a in m._atoms.values()]
-    bonds = sorted((min(pos[n], pos[k]), max(pos[n], pos[k]), int(b)) for n, ms in m._bonds.items() for k, b in ms.items() if pos[n] < pos[k])
-    stereo = (sorted((pos[n], v) for n, v in m._atoms_stereo.items()) if hasattr(m, '_atoms_stereo') else None,
-              sorted((tuple(sorted((pos[a], pos[b]))), v) for (a, b), v in getattr(m, '_cis_trans_stereo', {}).items()))
-    return atoms, bonds, stereo, str(m)
+    atoms = [(a.atomic_number, a.isotope, a.charge, a.implicit_hydrogens, bool(a.is_radical), getattr(a, 'stereo', None))
+             for a in m._atoms.values()]
+    bonds = sorted((min(pos[n], pos[k]), max(pos[n], pos[k]), int(b), getattr(b, 'stereo', None))
+                   for n, ms in m._bonds.items() for k, b in ms.items() if pos[n] < pos[k])
+    return atoms, bonds, None, str(m)
 
 
 def role_relation(m, t, opts):
